@@ -425,9 +425,14 @@ func (w *World) parseBlock(p *packages.Package, path string, b *rawBlock) error 
 			case strings.HasPrefix(r2, "invariant"):
 				r2 = strings.TrimSpace(r2[len("invariant"):])
 				if strings.HasPrefix(r2, "#") {
-					j := strings.IndexAny(r2, " ")
+					j := strings.IndexAny(r2, " [")
 					cl.Label = r2[1:j]
 					r2 = strings.TrimSpace(r2[j:])
+				}
+				if strings.HasPrefix(r2, "[") {
+					j := strings.Index(r2, "]")
+					cl.Props = strings.Split(strings.ReplaceAll(r2[1:j], " ", ""), ",")
+					r2 = strings.TrimSpace(r2[j+1:])
 				}
 				cl.Text = r2
 				if err := parse(r2); err != nil {
